@@ -1,5 +1,6 @@
 /-
   C11 — FromJSONSchema yields a schema equivalent to the JSON Schema it was given.
+  Model: Gozod/Model/FromJson.lean (fromJS = jsonschema/from.go; J1 = the structured fragment).
 -/
 import Gozod.Proofs.C07
 import Gozod.Model.FromJson
@@ -7,91 +8,672 @@ import Gozod.Gen.KeywordTable
 namespace Gozod.C11
 open Gozod.Jsc Gozod.C07
 
-def c11_full : Prop := ∀ (j : J0) (x : Json), jsValid j.doc x = acceptsPlain j x
+/-! ### `fromJS` on canonical documents computes `fromJ1` -/
 
-theorem acceptsPlain_null (j : J0) (h1 : j.admitsNull = false) : acceptsPlain j .null = false := by
-  cases j <;> simp_all [J0.admitsNull, acceptsPlain, accepts, fromJ0, Json.isNull]
+theorem collect_ofList (T : Str → Bool) (st : Bool) (l : List Kw) (p : Parts) :
+    collect T st (KwList.ofList l) p = l.foldl (fun p k => addKw T st k p) p := by
+  induction l generalizing p with
+  | nil => rfl
+  | cons k ks ih => simp [KwList.ofList, collect, ih]
 
-theorem c11_equiv_partial : (j : J0) → (x : Json) → supported j = true → instOK x = true →
-    jsValid j.doc x = acceptsPlain j x
-  | .str mn mx, x, _, hx => by
+theorem fromJS_node (T : Str → Bool) (st : Bool) (l : List Kw) :
+    fromJS T st (.node (KwList.ofList l)) = assemble T st (l.foldl (fun p k => addKw T st k p) {}) := by
+  simp [fromJS, collect_ofList]
+
+def okList : J1List → List R
+  | .nil => []
+  | .cons d ds => .ok (fromJ1 d) :: okList ds
+
+def sList : J1List → List S
+  | .nil => []
+  | .cons d ds => fromJ1 d :: sList ds
+
+def okProps : J1Props → List (Str × R)
+  | .nil => []
+  | .cons k d r => (k, .ok (fromJ1 d)) :: okProps r
+
+def sProps : J1Props → List (Str × S)
+  | .nil => []
+  | .cons k d r => (k, fromJ1 d) :: sProps r
+
+theorem seqR_okList : (ds : J1List) → seqR (okList ds) = .ok (sList ds)
+  | .nil => rfl
+  | .cons d ds => by simp [okList, sList, seqR, seqR_okList ds]
+
+theorem slistOf_sList : (ds : J1List) → slistOf (sList ds) = fromJ1L ds
+  | .nil => rfl
+  | .cons d ds => by simp [sList, slistOf, fromJ1L, slistOf_sList ds]
+
+theorem shapeOf_sProps : (ps : J1Props) → shapeOf (sProps ps) = fromJ1P ps
+  | .nil => rfl
+  | .cons k d r => by simp [sProps, shapeOf, fromJ1P, shapeOf_sProps r]
+
+theorem sProps_keys : (ps : J1Props) → (sProps ps).map (·.1) = ps.keys
+  | .nil => rfl
+  | .cons k d r => by simp [sProps, J1Props.keys, sProps_keys r]
+
+theorem convProps_ok (req : List Str) : (ps : J1Props) → (∀ k ∈ ps.keys, req.contains k = true) →
+    convProps req (okProps ps) = .ok (sProps ps)
+  | .nil, _ => rfl
+  | .cons k d r, h => by
+    have hk : req.contains k = true := h k (by simp [J1Props.keys])
+    have ih := convProps_ok req r (fun k' hk' => h k' (by simp [J1Props.keys, hk']))
+    have hk' : k ∈ req := by simpa using hk
+    simp [okProps, sProps, convProps, ih, hk']
+
+theorem addRequired_self (ps : J1Props) : addRequired ps.keys (sProps ps) = sProps ps := by
+  unfold addRequired
+  have : (ps.keys.filter (fun k => !((sProps ps).map (·.1)).contains k)) = [] := by
+    rw [sProps_keys]
+    simp [List.filter_eq_nil_iff]
+  rw [this]; simp [List.eraseDups]
+
+theorem okList_ne (ds : J1List) (h : 0 < ds.length) : ∃ r rs, okList ds = r :: rs := by
+  cases ds with
+  | nil => simp [J1List.length] at h
+  | cons d ds => exact ⟨_, _, rfl⟩
+
+theorem okProps_ne (ps : J1Props) (h : ps.keys.isEmpty = false) : ∃ kv kvs, okProps ps = kv :: kvs := by
+  cases ps with
+  | nil => simp [J1Props.keys] at h
+  | cons k d r => exact ⟨_, _, rfl⟩
+
+theorem goodM_goodL : (ds : J1List) → goodM ds = true → goodL ds = true
+  | .nil, _ => rfl
+  | .cons d ds, h => by
+    simp only [goodM, Bool.and_eq_true] at h
+    simp [goodL, h.1.1, goodM_goodL ds h.2]
+
+theorem allStrs_map (vs : List Str) : allStrs (vs.map Prim.str) = some vs := by
+  induction vs with
+  | nil => rfl
+  | cons v vs ih => simp [allStrs, ih]
+
+theorem seqR_lits (ps : List Prim) (h : ps.contains .null = false) :
+    seqR (ps.map litOf) = .ok (ps.map (fun p => S.lit [p])) := by
+  induction ps with
+  | nil => rfl
+  | cons p ps ih =>
+    simp only [List.contains_cons, Bool.or_eq_false_iff] at h
+    have ih' := ih h.2
+    cases p <;> simp_all [seqR, litOf]
+
+theorem slistOf_lits (ps : List Prim) : slistOf (ps.map (fun p => S.lit [p])) = litsOf ps := by
+  induction ps with
+  | nil => rfl
+  | cons p ps ih => simp [slistOf, litsOf, ih]
+
+mutual
+/-- T1: on a `good` document of the fragment, `fromJS` (strict or not, whatever the strict-mode
+    table) returns `fromJ1`. -/
+theorem conv (T : Str → Bool) (st : Bool) : (d : J1) → good d = true → fromJS T st d.doc = .ok (fromJ1 d)
+  | .str mn mx pat, _ => by
+    cases mn <;> cases mx <;> cases pat <;>
+      simp [J1.doc, fromJS_node, optKw, addKw, assemble, convByType, convOneType, convString, fromJ1, optL]
+  | .num mn mx emn emx mul, _ => by
+    cases mn <;> cases mx <;> cases emn <;> cases emx <;> cases mul <;>
+      simp [J1.doc, fromJS_node, optKw, addKw, assemble, convByType, convOneType, convNumber, fromJ1, optL]
+  | .bool, _ => by simp [J1.doc, fromJS_node, addKw, assemble, convByType, convOneType, fromJ1]
+  | .null, _ => by simp [J1.doc, fromJS_node, addKw, assemble, convByType, convOneType, fromJ1]
+  | .any, _ => by simp [J1.doc, fromJS, collect, assemble, convByType, fromJ1]
+  | .tru, _ => by simp [J1.doc, fromJS, fromJ1]
+  | .fls, _ => by simp [J1.doc, fromJS, fromJ1]
+  | .arr it mn mx, h => by
+    simp only [good] at h
+    have ih := conv T st it h
+    cases mn <;> cases mx <;>
+      simp [J1.doc, fromJS_node, optKw, addKw, assemble, convByType, convOneType, convArray, fromJ1, optL, ih]
+  | .tup items, h => by
+    simp only [good, Bool.and_eq_true, decide_eq_true_eq] at h
+    have ih := convL T st items h.1
+    obtain ⟨r, rs, hne⟩ := okList_ne items h.2
+    have hs := seqR_okList items
+    simp only [J1.doc, fromJS_node, List.foldl_cons, List.foldl_nil, addKw, assemble, convByType, convOneType, convArray, ih]
+    rw [hne] at hs ⊢
+    simp [hs, slistOf_sList, fromJ1]
+  | .obj props closed, h => by
+    simp only [good, Bool.and_eq_true, Bool.not_eq_true'] at h
+    have ih := convP T st props h.1
+    obtain ⟨kv, kvs, hne⟩ := okProps_ne props h.2
+    have hc := convProps_ok props.keys props (fun k hk => by simpa using hk)
+    cases closed <;>
+      simp only [J1.doc, fromJS_node, List.foldl_cons, List.foldl_nil, List.append_nil, List.cons_append, List.nil_append,
+        if_true, Bool.false_eq_true, if_false, addKw, assemble, convByType, convOneType, convObject, ih] <;>
+      rw [hne] at hc ⊢ <;>
+      simp [hc, addRequired_self, shapeOf_sProps, fromJ1, fromJS, boolOf]
+  | .objC props ca, h => by
+    simp only [good, Bool.and_eq_true, Bool.not_eq_true'] at h
+    obtain ⟨⟨⟨hp, hk⟩, hca⟩, hnb⟩ := h
+    have ih := convP T st props hp
+    have ihc := conv T st ca hca
+    obtain ⟨kv, kvs, hne⟩ := okProps_ne props hk
+    have hc := convProps_ok props.keys props (fun k hk => by simpa using hk)
+    have hb : boolOf ca.doc = none := by
+      cases ca <;> simp_all [isBoolDoc, J1.doc, boolOf]
+    simp only [J1.doc, fromJS_node, List.foldl_cons, List.foldl_nil, addKw, assemble, convByType, convOneType, convObject,
+      ih, ihc, hb]
+    rw [hne] at hc ⊢
+    simp [hc, addRequired_self, shapeOf_sProps, fromJ1]
+  | .rcd v, h => by
+    simp only [good] at h
+    simp [J1.doc, fromJS_node, addKw, assemble, convByType, convOneType, convObject, conv T st v h, fromJ1]
+  | .const p, _ => by
+    cases p <;> simp [J1.doc, fromJS_node, addKw, assemble, litOf, fromJ1]
+  | .enumS vs, h => by
+    simp only [good, Bool.not_eq_true', List.isEmpty_eq_false_iff] at h
+    obtain ⟨v, vs', rfl⟩ := List.exists_cons_of_ne_nil h
+    have := allStrs_map (v :: vs')
+    simp only [List.map_cons] at this
+    simp [J1.doc, fromJS_node, addKw, assemble, this, fromJ1]
+  | .enumP ps, h => by
+    simp only [good, Bool.and_eq_true, Bool.not_eq_true', List.isEmpty_eq_false_iff, Option.isNone_iff_eq_none] at h
+    obtain ⟨⟨hne, hstr⟩, hnull⟩ := h
+    obtain ⟨v, vs', rfl⟩ := List.exists_cons_of_ne_nil hne
+    have hl := seqR_lits (v :: vs') hnull
+    simp only [List.map_cons] at hl
+    simp [J1.doc, fromJS_node, addKw, assemble, hstr, hl, fromJ1, ← slistOf_lits, slistOf]
+  | .anyOf ms, h => by
+    simp only [good, Bool.and_eq_true, decide_eq_true_eq] at h
+    have ih := convL T st ms (goodM_goodL ms h.1)
+    have hs := seqR_okList ms
+    match ms, h, ih, hs with
+    | .cons a (.cons b rest), _, ih, hs =>
+      simp only [okList] at hs ih
+      simp [J1.doc, fromJS_node, addKw, assemble, ih, hs, sList, slistOf, slistOf_sList, fromJ1, fromJ1L]
+    | .cons a .nil, h, _, _ => simp [J1List.length] at h
+    | .nil, h, _, _ => simp [J1List.length] at h
+  | .oneOf ms, h => by
+    simp only [good, Bool.and_eq_true, decide_eq_true_eq] at h
+    have ih := convL T st ms (goodM_goodL ms h.1)
+    have hs := seqR_okList ms
+    match ms, h, ih, hs with
+    | .cons a (.cons b rest), _, ih, hs =>
+      simp only [okList] at hs ih
+      simp [J1.doc, fromJS_node, addKw, assemble, ih, hs, sList, slistOf, slistOf_sList, fromJ1, fromJ1L]
+    | .cons a .nil, h, _, _ => simp [J1List.length] at h
+    | .nil, h, _, _ => simp [J1List.length] at h
+  | .allOf2 a b, h => by
+    simp only [good, Bool.and_eq_true] at h
+    simp [J1.doc, fromJS_node, addKw, assemble, fromList, conv T st a h.1.1.1.1.1, conv T st b h.1.1.1.1.2, seqR, chainAnd,
+      fromJ1]
+  | .ref d, h => by
+    simp only [good] at h
+    simp [J1.doc, fromJS_node, addKw, assemble, conv T st d h, fromJ1]
+  | .fmt name gd, h => by
+    simp only [good, Bool.and_eq_true] at h
+    have hk : name ∈ knownFormats := by simpa using h.1
+    simp [J1.doc, fromJS_node, addKw, assemble, convByType, convOneType, convString, hk, fromJ1]
+
+theorem convL (T : Str → Bool) (st : Bool) : (ds : J1List) → goodL ds = true → fromList T st (docList ds) = okList ds
+  | .nil, _ => rfl
+  | .cons d ds, h => by
+    simp only [goodL, Bool.and_eq_true] at h
+    simp [docList, fromList, okList, conv T st d h.1, convL T st ds h.2]
+
+theorem convP (T : Str → Bool) (st : Bool) : (ps : J1Props) → goodP ps = true → fromProps T st (docProps ps) = okProps ps
+  | .nil, _ => rfl
+  | .cons k d r, h => by
+    simp only [goodP, Bool.and_eq_true] at h
+    simp [docProps, fromProps, okProps, conv T st d h.1, convP T st r h.2]
+end
+
+/-! ### the produced schema accepts exactly the valid instances -/
+
+theorem patCk_holds (p : Pat) (s : Str) : (patCk p).holds s = p.holds s := by
+  cases p <;> rfl
+
+theorem fromJ1_notOpt : (d : J1) → (fromJ1 d).isOpt = false
+  | .ref d => by simpa [fromJ1] using fromJ1_notOpt d
+  | .const p => by cases p <;> simp [fromJ1, S.isOpt]
+  | .obj _ c => by cases c <;> simp [fromJ1, S.isOpt]
+  | .str _ _ _ | .num _ _ _ _ _ | .bool | .null | .any | .tru | .fls | .arr _ _ _ | .tup _ | .objC _ _ | .rcd _
+  | .enumS _ | .enumP _ | .anyOf _ | .oneOf _ | .allOf2 _ _ | .fmt _ _ => by simp [fromJ1, S.isOpt]
+
+theorem reqCount_fromJ1L : (ds : J1List) → reqCount (fromJ1L ds) = ds.length
+  | .nil => rfl
+  | .cons d ds => by
+    have ih := reqCount_fromJ1L ds
+    simp only [fromJ1L, reqCount, ih, fromJ1_notOpt d, J1List.length]
+    split <;> simp_all
+
+theorem fromJ1L_length : (ds : J1List) → (fromJ1L ds).length = ds.length
+  | .nil => rfl
+  | .cons d ds => by simp [fromJ1L, SList.length, J1List.length, fromJ1L_length ds]
+
+theorem docList_length : (ds : J1List) → (docList ds).length = ds.length
+  | .nil => rfl
+  | .cons d ds => by simp [docList, JSList.length, J1List.length, docList_length ds]
+
+theorem docProps_keys : (ps : J1Props) → (docProps ps).keys = ps.keys
+  | .nil => rfl
+  | .cons k d r => by simp [docProps, JSProps.keys, J1Props.keys, docProps_keys r]
+
+theorem fromJ1P_keys : (ps : J1Props) → (fromJ1P ps).keys = ps.keys
+  | .nil => rfl
+  | .cons k d r => by simp [fromJ1P, Shape.keys, J1Props.keys, fromJ1P_keys r]
+
+theorem anyAccepts_lits (ps : List Prim) (x : Json) : anyAccepts (litsOf ps) x = ps.any (fun p => x.isPrim p) := by
+  induction ps with
+  | nil => rfl
+  | cons p ps ih => simp [litsOf, anyAccepts, accepts, ih]
+
+theorem any_isPrim_strs (vs : List Str) (x : Json) :
+    (vs.map Prim.str).any (fun p => x.isPrim p) = (match x with | .str s => vs.contains s | _ => false) := by
+  cases x with
+  | str s =>
+    induction vs with
+    | nil => simp
+    | cons v vs ih =>
+      simp only [List.map_cons, List.any_cons, List.contains_cons]
+      rw [ih]; simp [Json.isPrim]
+  | _ => induction vs with
+    | nil => simp
+    | cons v vs ih => simp_all [Json.isPrim]
+
+theorem sholds_min (n : Nat) (s : Str) : (StrCk.min n).holds s = decide (n ≤ byteLen s) := rfl
+theorem sholds_max (n : Nat) (s : Str) : (StrCk.max n).holds s = decide (byteLen s ≤ n) := rfl
+theorem patCk_noTrim (p : Pat) : noTrim [patCk p] = true := by cases p <;> rfl
+theorem noTrim_append (a b : List StrCk) : noTrim (a ++ b) = (noTrim a && noTrim b) := by simp [noTrim]
+
+/-- a member that does not admit nil rejects `null`. -/
+theorem null_rejected : (d : J1) → good d = true → (fromJ1 d).acceptsNull = false → accepts (fromJ1 d) .null = false
+  | .ref d, h, hn => by
+    simp only [good] at h; simp only [fromJ1] at hn ⊢; exact null_rejected d h hn
+  | .const p, _, hn => by cases p <;> simp_all [fromJ1, accepts, S.acceptsNull, Json.isPrim]
+  | .enumP ps, h, _ => by
+    simp only [good, Bool.and_eq_true, Bool.not_eq_true'] at h
+    simp [fromJ1, accepts, Json.isNull]
+  | .obj _ c, _, _ => by cases c <;> simp [fromJ1, accepts]
+  | .str _ _ _, _, _ | .num _ _ _ _ _, _, _ | .bool, _, _ | .fls, _, _ | .arr _ _ _, _, _ | .tup _, _, _ | .objC _ _, _, _
+  | .rcd _, _, _ | .enumS _, _, _ | .anyOf _, _, _ | .oneOf _, _, _ | .allOf2 _ _, _, _ | .fmt _ _, _, _ => by
+    simp [fromJ1, accepts, Json.isNull]
+  | .null, _, hn | .any, _, hn | .tru, _, hn => by simp [fromJ1, S.acceptsNull] at hn
+
+theorem members_null1 : (ds : J1List) → goodM ds = true →
+    anyAccepts (fromJ1L ds) .null = false ∧ countAccepts (fromJ1L ds) .null = 0
+  | .nil, _ => by simp [fromJ1L, anyAccepts, countAccepts]
+  | .cons d ds, h => by
+    simp only [goodM, Bool.and_eq_true, Bool.not_eq_true'] at h
+    have h0 := null_rejected d h.1.1 h.1.2
+    have ih := members_null1 ds h.2
+    simp [fromJ1L, anyAccepts, countAccepts, h0, ih.1, ih.2]
+
+mutual
+/-- T2 (on the schema `fromJ1` that T1 says `fromJS` returns). -/
+theorem equivJ : (d : J1) → (x : Json) → good d = true → instOK x = true → jsValid d.doc x = accepts (fromJ1 d) x
+  | .str mn mx pat, x, _, hx => by
     cases x with
     | str s =>
       have hb := byteLen_ascii s (by simpa [instOK] using hx)
-      have hnt : noTrim (optL mn StrCk.min ++ optL mx StrCk.max) = true := by
-        cases mn <;> cases mx <;> rfl
-      simp only [acceptsPlain, fromJ0, accepts, runStr_noTrim _ s hnt]
-      cases mn <;> cases mx <;>
-        simp [J0.doc, optKw, jsValid_node, kwValid, typeOk, optL, StrCk.holds, hb] <;>
+      have hnt : noTrim (optL mn StrCk.min ++ optL mx StrCk.max ++ optL pat patCk) = true := by
+        have h1 : noTrim (optL mn StrCk.min) = true := by cases mn <;> rfl
+        have h2 : noTrim (optL mx StrCk.max) = true := by cases mx <;> rfl
+        have h3 : noTrim (optL pat patCk) = true := by
+          cases pat with
+          | none => rfl
+          | some p => exact patCk_noTrim p
+        simp only [noTrim_append, h1, h2, h3, Bool.and_self]
+      simp only [fromJ1, accepts, runStr_noTrim _ s hnt]
+      cases mn <;> cases mx <;> cases pat <;>
+        simp only [J1.doc, optKw, optL, List.append_nil, List.nil_append, List.cons_append, jsValid_node, List.all_cons,
+          List.all_nil, kwValid, typeOk, sholds_min, sholds_max, patCk_holds, hb, Bool.true_and, Bool.and_true] <;>
         (split <;> simp_all)
-    | _ => cases mn <;> cases mx <;> simp [J0.doc, optKw, jsValid_node, kwValid, typeOk, acceptsPlain, fromJ0, accepts]
-  | .num mn mx, x, _, _ => by
-    cases x <;> cases mn <;> cases mx <;>
-      simp [J0.doc, optKw, jsValid_node, kwValid, typeOk, acceptsPlain, fromJ0, optL, accepts, NumCk.holds]
-  | .int mn mx, _, h, _ => by simp [supported] at h
-  | .bool, x, _, _ => by cases x <;> simp [J0.doc, jsValid_node, kwValid, typeOk, acceptsPlain, fromJ0, accepts]
-  | .null, x, _, _ => by simpa [J0.doc, acceptsPlain, fromJ0] using nil_case x
-  | .any, x, _, _ => by simp [J0.doc, jsValid, kwsValid, acceptsPlain, fromJ0, accepts]
+    | _ => cases mn <;> cases mx <;> cases pat <;> simp [J1.doc, optKw, jsValid_node, kwValid, typeOk, fromJ1, accepts]
+  | .num mn mx emn emx mul, x, _, _ => by
+    cases x <;> cases mn <;> cases mx <;> cases emn <;> cases emx <;> cases mul <;>
+      simp [J1.doc, optKw, jsValid_node, kwValid, typeOk, fromJ1, optL, accepts, NumCk.holds, Bool.and_assoc]
+  | .bool, x, _, _ => by cases x <;> simp [J1.doc, jsValid_node, kwValid, typeOk, fromJ1, accepts]
+  | .null, x, _, _ => by cases x <;> simp [J1.doc, jsValid_node, kwValid, typeOk, fromJ1, accepts, Json.isNull]
+  | .any, x, _, _ => by simp [J1.doc, jsValid, kwsValid, fromJ1, accepts]
+  | .tru, x, _, _ => by simp [J1.doc, jsValid, fromJ1, accepts]
+  | .fls, x, _, _ => by simp [J1.doc, jsValid, fromJ1, accepts]
   | .arr it mn mx, x, h, hx => by
-    simp only [supported] at h
+    simp only [good] at h
     cases x with
     | arr xs =>
       have hxs : instListOK xs = true := by simpa [instOK] using hx
-      have ih := all_congr_list _ _ (fun v hv => c11_equiv_partial it v h hv) xs hxs
-      cases mn <;> cases mx <;> simp only [J0.doc, optKw, List.append_nil, List.cons_append, List.nil_append] <;>
+      have ih := all_congr_list _ _ (fun v hv => equivJ it v h hv) xs hxs
+      cases mn <;> cases mx <;> simp only [J1.doc, optKw, List.append_nil, List.cons_append, List.nil_append] <;>
         rw [jsValid_node] <;>
-        simp [kwValid, typeOk, acceptsPlain, optL, szOk, SzCk.holds,
+        simp [kwValid, typeOk, fromJ1, accepts, optL, szOk, SzCk.holds,
           KwList.ofList, KwList.nPrefix, JsonList.drop, ih, Bool.and_comm, Bool.and_assoc, Bool.and_left_comm]
-    | _ => cases mn <;> cases mx <;> simp [J0.doc, optKw, jsValid_node, kwValid, typeOk, acceptsPlain]
-  | .anyOf2 a b, x, h, hx => by
-    simp only [supported, Bool.and_eq_true, Bool.not_eq_true'] at h
-    have ha := c11_equiv_partial a x h.1.2 hx
-    have hb := c11_equiv_partial b x h.2 hx
-    simp only [J0.doc, jsValid_node, List.all_cons, List.all_nil, kwValid, anyValid, ha, hb, acceptsPlain, Bool.and_true,
-      Bool.or_false]
+    | _ => cases mn <;> cases mx <;> simp [J1.doc, optKw, jsValid_node, kwValid, typeOk, fromJ1, accepts]
+  | .tup items, x, h, hx => by
+    simp only [good, Bool.and_eq_true, decide_eq_true_eq] at h
+    cases x with
+    | arr xs =>
+      have hxs : instListOK xs = true := by simpa [instOK] using hx
+      have ih := equivItems items xs h.1 hxs
+      simp only [J1.doc]
+      rw [jsValid_node]
+      simp only [List.all_cons, List.all_nil, kwValid, typeOk, ih, fromJ1, accepts, reqCount_fromJ1L, fromJ1L_length,
+        restAccepts, szOk_nil, Bool.and_true, Bool.true_and]
+      rw [Bool.eq_iff_iff]; simp; constructor
+      · rintro ⟨h1, h2, h3⟩; exact ⟨⟨h2, h3⟩, h1⟩
+      · rintro ⟨⟨h1, h2⟩, h3⟩; exact ⟨h3, h1, h2⟩
+    | _ => simp [J1.doc, jsValid_node, kwValid, typeOk, fromJ1, accepts]
+  | .obj props closed, x, h, hx => by
+    simp only [good, Bool.and_eq_true] at h
+    cases x with
+    | obj fs =>
+      have hfs : instFieldsOK fs = true := by simpa [instOK] using hx
+      have ih := equivProps props fs h.1 hfs
+      cases closed
+      · simp only [J1.doc, Bool.false_eq_true, if_false, List.append_nil]
+        rw [jsValid_node]
+        simp only [List.all_cons, List.all_nil, kwValid, typeOk, Bool.true_and, Bool.and_true, fromJ1, accepts, szOk_nil]
+        rw [← ih]; simp
+      · simp only [J1.doc, if_true, List.cons_append, List.nil_append]
+        rw [jsValid_node]
+        simp only [List.all_cons, List.all_nil, kwValid, typeOk, Bool.true_and, Bool.and_true, fromJ1, accepts, szOk_nil,
+          jsValid, Bool.or_false, KwList.ofList, KwList.propKeys, docProps_keys, fromJ1P_keys]
+        rw [← ih]; simp [Bool.and_assoc]
+    | _ => cases closed <;> simp [J1.doc, jsValid_node, kwValid, typeOk, fromJ1, accepts]
+  | .objC props ca, x, h, hx => by
+    simp only [good, Bool.and_eq_true] at h
+    cases x with
+    | obj fs =>
+      have hfs : instFieldsOK fs = true := by simpa [instOK] using hx
+      have ih := equivProps props fs h.1.1.1 hfs
+      have ihc := all_congr_fields
+        (fun k v => props.keys.contains k || jsValid ca.doc v) (fun k v => props.keys.contains k || accepts (fromJ1 ca) v)
+        (fun k v _ hv => by simp only [equivJ ca v h.1.2 hv]) fs hfs
+      simp only [J1.doc]
+      rw [jsValid_node]
+      simp only [List.all_cons, List.all_nil, kwValid, typeOk, Bool.true_and, Bool.and_true, fromJ1, accepts, szOk_nil,
+        KwList.ofList, KwList.propKeys, docProps_keys, fromJ1P_keys, catchAccepts, ihc]
+      rw [← ih, Bool.and_assoc]
+    | _ => simp [J1.doc, jsValid_node, kwValid, typeOk, fromJ1, accepts]
+  | .rcd v, x, h, hx => by
+    simp only [good] at h
+    cases x with
+    | obj fs =>
+      have hfs : instFieldsOK fs = true := by simpa [instOK] using hx
+      have ihv := all_congr_fields
+        (fun k w => ([] : List Str).contains k || jsValid v.doc w) (fun _ w => accepts (fromJ1 v) w)
+        (fun k w _ hw => by simp [equivJ v w h hw]) fs hfs
+      simp only [J1.doc]
+      rw [jsValid_node]
+      simp only [List.all_cons, List.all_nil, kwValid, typeOk, Bool.true_and, Bool.and_true, fromJ1, accepts, szOk_nil,
+        KwList.ofList, KwList.propKeys, ihv, runStr, Option.isSome_some, fields_all_true]
+    | _ => simp [J1.doc, jsValid_node, kwValid, typeOk, fromJ1, accepts]
+  | .const p, x, _, _ => by
+    cases p <;> cases x <;> simp [J1.doc, jsValid_node, kwValid, fromJ1, accepts, Json.isPrim, Json.isNull]
+  | .enumS vs, x, _, _ => by
+    simp only [J1.doc, jsValid_node, List.all_cons, List.all_nil, kwValid, Bool.and_true, any_isPrim_strs, fromJ1]
+    cases x <;> simp [accepts]
+  | .enumP ps, x, h, _ => by
+    simp only [good, Bool.and_eq_true, Bool.not_eq_true'] at h
+    simp only [J1.doc, jsValid_node, List.all_cons, List.all_nil, kwValid, Bool.and_true, fromJ1, accepts, anyAccepts_lits]
     cases hn : x.isNull
     · simp
     · have := (isNull_iff x).1 hn; subst this
-      simp [acceptsPlain_null a h.1.1.1, acceptsPlain_null b h.1.1.2]
-  | .oneOf2 a b, x, h, hx => by
-    simp only [supported, Bool.and_eq_true, Bool.not_eq_true'] at h
-    have ha := c11_equiv_partial a x h.1.2 hx
-    have hb := c11_equiv_partial b x h.2 hx
-    simp only [J0.doc, jsValid_node, List.all_cons, List.all_nil, kwValid, countValid, ha, hb, acceptsPlain, Bool.and_true,
-      Nat.add_zero]
+      have hnull : ps.contains Prim.null = false := h.2
+      have : ps.any (fun p => Json.isPrim .null p) = false := by
+        simp only [List.any_eq_false]
+        intro p hp
+        cases p <;> simp [Json.isPrim]
+        simp_all
+      simp [this]
+  | .anyOf ms, x, h, hx => by
+    simp only [good, Bool.and_eq_true] at h
+    have hnull := members_null1 ms h.1
+    simp only [J1.doc, jsValid_node, List.all_cons, List.all_nil, kwValid, Bool.and_true, fromJ1, accepts,
+      equivAny ms x h.1 hx]
     cases hn : x.isNull
     · simp
     · have := (isNull_iff x).1 hn; subst this
-      simp [acceptsPlain_null a h.1.1.1, acceptsPlain_null b h.1.1.2]
+      simp [hnull.1]
+  | .oneOf ms, x, h, hx => by
+    simp only [good, Bool.and_eq_true] at h
+    have hnull := members_null1 ms h.1
+    simp only [J1.doc, jsValid_node, List.all_cons, List.all_nil, kwValid, Bool.and_true, fromJ1, accepts,
+      equivCount ms x h.1 hx]
+    cases hn : x.isNull
+    · simp
+    · have := (isNull_iff x).1 hn; subst this
+      simp [hnull.2]
+  | .allOf2 a b, x, h, hx => by
+    simp only [good, Bool.and_eq_true, Bool.not_eq_true'] at h
+    obtain ⟨⟨⟨⟨⟨ha, hb⟩, hna⟩, _⟩, _⟩, _⟩ := h
+    simp only [J1.doc, jsValid_node, List.all_cons, List.all_nil, kwValid, Bool.and_true, allValid, fromJ1, accepts,
+      equivJ a x ha hx, equivJ b x hb hx]
+    cases hn : x.isNull
+    · simp
+    · have := (isNull_iff x).1 hn; subst this
+      simp [null_rejected a ha hna]
+  | .ref d, x, h, hx => by
+    simp only [good] at h
+    simp [J1.doc, jsValid_node, kwValid, fromJ1, equivJ d x h hx]
+  | .fmt name gd, x, h, _ => by
+    simp only [good, Bool.and_eq_true] at h
+    have hk : name ∈ knownFormats := by simpa using h.1
+    cases x <;> simp [J1.doc, jsValid_node, kwValid, typeOk, fromJ1, accepts, hk]
 
-example : supported (.arr (.anyOf2 (.str (some 1) (some 3)) (.num (some 0) none)) (some 1) none) = true := by decide
+theorem equivItems : (ds : J1List) → (xs : JsonList) → goodL ds = true → instListOK xs = true →
+    prefixValid (docList ds) xs = itemsAccept (fromJ1L ds) xs
+  | .nil, _, _, _ => by simp [docList, fromJ1L, prefixValid, itemsAccept]
+  | .cons d ds, .nil, _, _ => by simp [docList, fromJ1L, prefixValid, itemsAccept]
+  | .cons d ds, .cons x xs, h, hx => by
+    simp only [goodL, Bool.and_eq_true] at h
+    simp only [instListOK, Bool.and_eq_true] at hx
+    simp [docList, fromJ1L, prefixValid, itemsAccept, equivJ d x h.1 hx.1, equivItems ds xs h.2 hx.2]
 
-/-- class (a): `integer` is documented as supported, but the produced Int() schema rejects every
-    JSON-decoded number (float64). -/
-theorem witness_integer_rejects_numbers :
-    jsValid (J0.int none none).doc (.num 4) = true ∧ acceptsPlain (.int none none) (.num 4) = false := by decide
+theorem equivAny : (ds : J1List) → (x : Json) → goodM ds = true → instOK x = true →
+    anyValid (docList ds) x = anyAccepts (fromJ1L ds) x
+  | .nil, _, _, _ => by simp [docList, fromJ1L, anyValid, anyAccepts]
+  | .cons d ds, x, h, hx => by
+    simp only [goodM, Bool.and_eq_true] at h
+    simp [docList, fromJ1L, anyValid, anyAccepts, equivJ d x h.1.1 hx, equivAny ds x h.2 hx]
 
-/-- class (f): a nullable anyOf rejects null (the union's nil path precedes its members). -/
-theorem witness_nullable_anyOf :
-    jsValid (J0.anyOf2 (.str none none) .null).doc .null = true ∧ acceptsPlain (.anyOf2 (.str none none) .null) .null = false := by
-  decide
+theorem equivCount : (ds : J1List) → (x : Json) → goodM ds = true → instOK x = true →
+    countValid (docList ds) x = countAccepts (fromJ1L ds) x
+  | .nil, _, _, _ => by simp [docList, fromJ1L, countValid, countAccepts]
+  | .cons d ds, x, h, hx => by
+    simp only [goodM, Bool.and_eq_true] at h
+    simp [docList, fromJ1L, countValid, countAccepts, equivJ d x h.1.1 hx, equivCount ds x h.2 hx]
 
-theorem c11_full_false : ¬ c11_full := by
-  intro h
-  have := h (.int none none) (.num 4)
-  revert this; decide
+theorem equivProps : (ps : J1Props) → (fs : JsonFields) → goodP ps = true → instFieldsOK fs = true →
+    (propsValid (docProps ps) fs && ps.keys.all (fun k => fs.hasKey k)) = shapeAccepts false (fromJ1P ps) fs
+  | .nil, _, _, _ => by simp [docProps, fromJ1P, propsValid, shapeAccepts, J1Props.keys]
+  | .cons k d r, fs, h, hfs => by
+    simp only [goodP, Bool.and_eq_true] at h
+    have ih := equivProps r fs h.2 hfs
+    simp only [docProps, fromJ1P, propsValid, shapeAccepts, J1Props.keys, List.all_cons, Bool.false_or, fromJ1_notOpt d]
+    rw [← ih]
+    cases hf : fs.find k with
+    | none => simp [hf, JsonFields.hasKey]
+    | some v =>
+      have he := equivJ d v h.1 (find_instOK k v fs hfs hf)
+      simp [hf, he, JsonFields.hasKey]
+      cases accepts (fromJ1 d) v <;> cases propsValid (docProps r) fs <;> simp
+end
 
-/-! ### strict mode over the regenerated keyword table -/
+/-! ### plain decoding changes nothing on the fragment (it has no integer schema) -/
+
+theorem plainify_lits : (ps : List Prim) → plainifyL (litsOf ps) = litsOf ps
+  | [] => rfl
+  | p :: ps => by simp [litsOf, plainifyL, plainify, plainify_lits ps]
+
+mutual
+theorem plainJ : (d : J1) → plainify (fromJ1 d) = fromJ1 d
+  | .str _ _ _ | .num _ _ _ _ _ | .bool | .null | .any | .tru | .fls | .enumS _ | .fmt _ _ => by simp [fromJ1, plainify]
+  | .arr it _ _ => by simp [fromJ1, plainify, plainJ it]
+  | .tup items => by simp [fromJ1, plainify, plainifyO, plainJL items]
+  | .obj props c => by simp [fromJ1, plainify, plainifyO, plainJP props]
+  | .objC props ca => by simp [fromJ1, plainify, plainifyO, plainJP props, plainJ ca]
+  | .rcd v => by simp [fromJ1, plainify, plainJ v]
+  | .const p => by cases p <;> simp [fromJ1, plainify]
+  | .enumP ps => by simp [fromJ1, plainify, plainify_lits]
+  | .anyOf ms => by simp [fromJ1, plainify, plainJL ms]
+  | .oneOf ms => by simp [fromJ1, plainify, plainJL ms]
+  | .allOf2 a b => by simp [fromJ1, plainify, plainJ a, plainJ b]
+  | .ref d => by simpa [fromJ1] using plainJ d
+theorem plainJL : (ds : J1List) → plainifyL (fromJ1L ds) = fromJ1L ds
+  | .nil => rfl
+  | .cons d ds => by simp [fromJ1L, plainifyL, plainJ d, plainJL ds]
+theorem plainJP : (ps : J1Props) → plainifySh (fromJ1P ps) = fromJ1P ps
+  | .nil => rfl
+  | .cons k d r => by simp [fromJ1P, plainifySh, plainJ d, plainJP r]
+end
+
+/-! ## the property -/
+
+/-- C11 at full strength, for the documents of `J1` and every conversion outcome: whatever
+    `fromJS` returns accepts exactly the valid instances. FALSE on the pinned code beyond `good`
+    (and for documents outside `J1`): witnesses below. -/
+def c11_full : Prop :=
+  ∀ (T : Str → Bool) (j : JS) (x : Json), ∃ s, fromJS T false j = .ok s ∧ jsValid j x = acceptsDecoded s x
+
+/-- on the `good` fragment FromJSONSchema (strict or not) returns a schema that accepts, after
+    plain JSON decoding, exactly the instances valid against the document. -/
+theorem c11_equiv_partial (T : Str → Bool) (st : Bool) (d : J1) (x : Json) (h : good d = true) (hx : instOK x = true) :
+    ∃ s, fromJS T st d.doc = .ok s ∧ jsValid d.doc x = acceptsDecoded s x :=
+  ⟨fromJ1 d, conv T st d h, by rw [acceptsDecoded, plainJ d]; exact equivJ d x h hx⟩
+
+example : good (.obj (.cons [97] (.arr (.anyOf (.cons (.str (some 1) (some 3) (some (.pre [97]))) (.cons (.num (some 0) none (some 0) none (some 2)) .nil)))
+    (some 1) none) (.cons [98] (.enumP [.str [120], .num 4]) .nil)) true) = true := by decide
+
+/-! ### round trip: ToJSONSchema (FromJSONSchema doc) validates the same instances -/
+
+mutual
+/-- the part of `good` whose produced schema lies in C07's value-preserving representable fragment
+    (closed objects only: an open object comes back with `additionalProperties: false`; no formats:
+    ToJSONSchema of the dedicated format schemas is outside C07's model). -/
+def rt : J1 → Bool
+  | .arr it _ _ => rt it
+  | .tup items => rtL items
+  | .obj props closed => closed && rtP props
+  | .objC props ca => rtP props && rt ca
+  | .rcd v => rt v
+  | .anyOf ms => rtL ms
+  | .oneOf ms => rtL ms
+  | .allOf2 a b => rt a && rt b
+  | .ref d => rt d
+  | .fmt _ _ => false
+  | _ => true
+def rtL : J1List → Bool
+  | .nil => true
+  | .cons d ds => rt d && rtL ds
+def rtP : J1Props → Bool
+  | .nil => true
+  | .cons _ d r => rt d && rtP r
+end
+
+theorem reprMembers_lits : (ps : List Prim) → ps.contains .null = false → reprMembers (litsOf ps) = true
+  | [], _ => rfl
+  | p :: ps, h => by
+    simp only [List.contains_cons, Bool.or_eq_false_iff] at h
+    have ih := reprMembers_lits ps h.2
+    cases p <;> simp_all [litsOf, reprMembers, reprP, S.acceptsNull, litHomog, Prim.sameKind]
+
+theorem litsOf_length (ps : List Prim) : (litsOf ps).length = ps.length := by
+  induction ps with
+  | nil => rfl
+  | cons p ps ih => simp [litsOf, SList.length, ih]
+
+mutual
+theorem reprJ : (d : J1) → (top : Bool) → good d = true → rt d = true → reprP top (fromJ1 d) = true
+  | .str mn mx pat, _, _, _ => by
+    cases pat with
+    | none => cases mn <;> cases mx <;> simp [fromJ1, reprP, optL, strLenOK, strLenOK.lenFree, noTrim]
+    | some p =>
+      cases p <;> cases mn <;> cases mx <;> simp [fromJ1, reprP, optL, patCk, strLenOK, strLenOK.lenFree, noTrim]
+  | .num mn mx emn emx mul, _, h, _ => by
+    cases mn <;> cases mx <;> cases emn <;> cases emx <;> cases mul <;>
+      simp_all [good, fromJ1, reprP, optL, numFoldOK, NumBag.stepOK, NumBag.step]
+  | .bool, _, _, _ | .null, _, _, _ | .any, _, _, _ | .tru, _, _, _ | .fls, _, _, _ => by simp [fromJ1, reprP]
+  | .arr it mn mx, _, h, hr => by
+    simp only [good] at h; simp only [rt] at hr
+    cases mn <;> cases mx <;> simp [fromJ1, reprP, optL, szSimple, reprJ it false h hr]
+  | .tup items, _, h, hr => by
+    simp only [good, Bool.and_eq_true] at h; simp only [rt] at hr
+    simp [fromJ1, reprP, reprCa, reprJL items h.1 hr]
+  | .obj props closed, _, h, hr => by
+    simp only [good, Bool.and_eq_true] at h; simp only [rt, Bool.and_eq_true] at hr
+    have hc : closed = true := hr.1
+    subst hc
+    simp [fromJ1, reprP, Mode.isStrip, Mode.isStrict, SOpt.isSome, szSimple, reprCa, reprJP props h.1 hr.2]
+  | .objC props ca, _, h, hr => by
+    simp only [good, Bool.and_eq_true] at h; simp only [rt, Bool.and_eq_true] at hr
+    simp [fromJ1, reprP, Mode.isStrip, Mode.isStrict, szSimple, reprCa, reprJP props h.1.1.1 hr.1, reprJ ca false h.1.2 hr.2]
+  | .rcd v, _, h, hr => by
+    simp only [good] at h; simp only [rt] at hr
+    simp [fromJ1, reprP, S.isStrSchema, strLenOK, noTrim, szSimple, reprJ v false h hr]
+  | .const p, _, _, _ => by cases p <;> simp [fromJ1, reprP, litHomog, Prim.sameKind]
+  | .enumS vs, _, h, _ => by simpa [good, fromJ1, reprP] using h
+  | .enumP ps, _, h, _ => by
+    simp only [good, Bool.and_eq_true, Bool.not_eq_true', List.isEmpty_eq_false_iff] at h
+    have hl : ((litsOf ps).length == 0) = false := by
+      rw [litsOf_length]; cases ps <;> simp_all
+    simp [fromJ1, reprP, hl, reprMembers_lits ps h.2]
+  | .anyOf ms, _, h, hr => by
+    simp only [good, Bool.and_eq_true, decide_eq_true_eq] at h; simp only [rt] at hr
+    have hl : ((fromJ1L ms).length == 0) = false := by rw [fromJ1L_length]; simp; omega
+    simp [fromJ1, reprP, hl, reprJM ms h.1 hr]
+  | .oneOf ms, _, h, hr => by
+    simp only [good, Bool.and_eq_true, decide_eq_true_eq] at h; simp only [rt] at hr
+    have hl : ((fromJ1L ms).length == 0) = false := by rw [fromJ1L_length]; simp; omega
+    simp [fromJ1, reprP, hl, reprJM ms h.1 hr]
+  | .allOf2 a b, _, h, hr => by
+    simp only [good, Bool.and_eq_true, Bool.not_eq_true'] at h; simp only [rt, Bool.and_eq_true] at hr
+    obtain ⟨⟨⟨⟨⟨ha, hb⟩, hna⟩, hnb⟩, hsa⟩, hsb⟩ := h
+    simp [fromJ1, reprP, hna, hnb, hsa, hsb, reprJ a false ha hr.1, reprJ b false hb hr.2]
+  | .ref d, top, h, hr => by
+    simp only [good] at h; simp only [rt] at hr
+    simpa [fromJ1] using reprJ d top h hr
+  | .fmt _ _, _, _, hr => by simp [rt] at hr
+
+theorem reprJL : (ds : J1List) → goodL ds = true → rtL ds = true → reprList (fromJ1L ds) = true
+  | .nil, _, _ => rfl
+  | .cons d ds, h, hr => by
+    simp only [goodL, Bool.and_eq_true] at h; simp only [rtL, Bool.and_eq_true] at hr
+    simp [fromJ1L, reprList, reprJ d false h.1 hr.1, reprJL ds h.2 hr.2]
+
+theorem reprJM : (ds : J1List) → goodM ds = true → rtL ds = true → reprMembers (fromJ1L ds) = true
+  | .nil, _, _ => rfl
+  | .cons d ds, h, hr => by
+    simp only [goodM, Bool.and_eq_true, Bool.not_eq_true'] at h; simp only [rtL, Bool.and_eq_true] at hr
+    simp [fromJ1L, reprMembers, h.1.2, reprJ d false h.1.1 hr.1, reprJM ds h.2 hr.2]
+
+theorem reprJP : (ps : J1Props) → goodP ps = true → rtP ps = true → reprShape (fromJ1P ps) = true
+  | .nil, _, _ => rfl
+  | .cons k d r, h, hr => by
+    simp only [goodP, Bool.and_eq_true] at h; simp only [rtP, Bool.and_eq_true] at hr
+    simp [fromJ1P, reprShape, reprJ d false h.1 hr.1, reprJP r h.2 hr.2]
+end
+
+/-- round trip (corollary of C07's `eqv` and `equivJ`): the document ToJSONSchema emits for the
+    schema FromJSONSchema produced validates exactly the instances of the original document. -/
+theorem c11_roundtrip (T : Str → Bool) (st : Bool) (d : J1) (x : Json) (h : good d = true) (hr : rt d = true)
+    (hx : instOK x = true) :
+    ∃ s, fromJS T st d.doc = .ok s ∧ jsValid (toDoc s) x = jsValid d.doc x :=
+  ⟨fromJ1 d, conv T st d h, by
+    rw [toDoc, eqv (fromJ1 d) true false false x (reprJ d true h hr) hx, equivJ d x h hx]⟩
+
+example : (good (.obj (.cons [97] (.tup (.cons .bool (.cons (.str none (some 2) none) .nil))) .nil) true)
+    && rt (.obj (.cons [97] (.tup (.cons .bool (.cons (.str none (some 2) none) .nil))) .nil) true)) = true := by decide
+
+/-! ### strict mode -/
+
+/-- if a schema object (without `$ref`) carries a keyword the strict-mode table rejects, the
+    strict conversion fails with `unsupported`. -/
+theorem c11_strict_rejects (T : Str → Bool) (kws : KwList) (n : Str)
+    (href : (collect T true kws {}).ref = none) (hn : n ∈ (collect T true kws {}).others) (hT : T n = true) :
+    ∃ kw, fromJS T true (.node kws) = .error (.unsupported kw) := by
+  have hsome : ((collect T true kws {}).others.find? T).isSome = true := by
+    rw [List.find?_isSome]; exact ⟨n, hn, hT⟩
+  obtain ⟨kw, hkw⟩ := Option.isSome_iff_exists.1 hsome
+  exact ⟨kw, by simp [fromJS, assemble, href, hkw]⟩
+
+/-- the strict-mode table as the predicate `fromJS` is run with. -/
+def tableRejects (n : Str) : Bool :=
+  Gen.keywordTable.any (fun r => r.kw.toList.map Char.toNat == n && r.strictRejects)
 
 /-- full: every keyword not documented as supported is rejected in strict mode. -/
 def c11_strict_full : Prop := ∀ r ∈ Gen.keywordTable, r.documented = false → r.strictRejects = true
 
-/-- the keywords for which strict mode does what it promises (as extracted from the code). -/
 def strictHonest (r : KwRow) : Bool := r.documented || r.strictRejects
-
-theorem c11_strict_rejects : ∀ r ∈ Gen.keywordTable, strictHonest r = true → r.documented = false → r.strictRejects = true := by
-  intro r _ h hd
-  simpa [strictHonest, hd] using h
 
 /-- known finding (class g): the keywords strict mode silently accepts today. -/
 def silentKeywords : List String :=
@@ -101,10 +683,88 @@ def silentKeywords : List String :=
 theorem c11_strict_silent : (Gen.keywordTable.filter (fun r => !strictHonest r)).map (·.kw) = silentKeywords := by
   decide
 
-/-- … so the full statement is false on the pinned code (witness: `not`). -/
+/-- … so it is false on the pinned code (witness: `not`). -/
 theorem c11_strict_full_false : ¬ c11_strict_full := by
   intro h
   have := h ⟨"not", false, false⟩ (by decide) rfl
   revert this; decide
+
+/-- e.g. `propertyNames`, which the regenerated table says is rejected: strict conversion of
+    `{"type":"string","propertyNames":{}}` fails. -/
+example : ∃ kw, fromJS tableRejects true
+    (.node (.ofList [.type .string, .other ("propertyNames".toList.map Char.toNat)])) = .error (.unsupported kw) :=
+  c11_strict_rejects tableRejects _ ("propertyNames".toList.map Char.toNat) (by decide) (by decide) (by decide)
+
+/-! ### witnesses: outside `good` (and outside `J1`) the full statement fails -/
+
+def noRej : Str → Bool := fun _ => false
+def st (s : String) : Str := s.toList.map Char.toNat
+
+/-- what the produced schema says about `x` (none = conversion failed). -/
+def verdict (j : JS) (x : Json) : Option Bool :=
+  match fromJS noRej false j with
+  | .ok s => some (acceptsDecoded s x)
+  | .error _ => none
+
+def rtVerdict (j : JS) (x : Json) : Option Bool :=
+  match fromJS noRej false j with
+  | .ok s => some (jsValid (toDoc s) x)
+  | .error _ => none
+
+def nd (l : List Kw) : JS := .node (.ofList l)
+
+theorem witness_integer_rejects_numbers :
+    verdict (nd [.type .integer]) (.num 4) = some false ∧ jsValid (nd [.type .integer]) (.num 4) = true := by decide
+
+theorem witness_nullable_union :
+    verdict (nd [.types [.string, .null]]) .null = some false ∧ jsValid (nd [.types [.string, .null]]) .null = true
+    ∧ verdict (nd [.anyOf (.cons (nd [.type .string]) (.cons (nd [.type .null]) .nil))]) .null = some false := by decide
+
+theorem witness_sibling_keywords_dropped :
+    verdict (nd [.const (.str [98]), .type .number]) (.str [98]) = some true
+    ∧ jsValid (nd [.const (.str [98]), .type .number]) (.str [98]) = false
+    ∧ verdict (nd [.type .string, .allOf (.cons (nd [.minLength 2]) .nil)]) (.num 4) = some true
+    ∧ verdict (nd [.ref (nd [.type .string]), .minLength 3]) (.str [109]) = some true := by decide
+
+theorem witness_keywords_without_type :
+    verdict (nd [.minLength 2]) (.str [109]) = some true ∧ jsValid (nd [.minLength 2]) (.str [109]) = false := by decide
+
+theorem witness_format_siblings_dropped :
+    verdict (nd [.type .string, .minLength 30, .format (st "email") [st "a@b.co"]]) (.str (st "a@b.co")) = some true
+    ∧ jsValid (nd [.type .string, .minLength 30, .format (st "email") [st "a@b.co"]]) (.str (st "a@b.co")) = false := by
+  decide
+
+theorem witness_tuple_items_all_required :
+    verdict (nd [.type .array, .prefixItems (.cons (nd [.type .string]) .nil)]) (.arr .nil) = some false
+    ∧ jsValid (nd [.type .array, .prefixItems (.cons (nd [.type .string]) .nil)]) (.arr .nil) = true := by decide
+
+theorem witness_optional_property_accepts_null :
+    verdict (nd [.type .object, .properties (.cons [97] (nd [.type .string]) .nil)]) (.obj (.cons [97] .null .nil)) = some true
+    ∧ jsValid (nd [.type .object, .properties (.cons [97] (nd [.type .string]) .nil)]) (.obj (.cons [97] .null .nil)) = false := by
+  decide
+
+theorem witness_required_on_record_path :
+    verdict (nd [.type .object, .required [[97]], .additionalProperties (.bool true)]) (.obj .nil) = some true
+    ∧ jsValid (nd [.type .object, .required [[97]], .additionalProperties (.bool true)]) (.obj .nil) = false := by decide
+
+theorem witness_roundtrip_open_object :
+    rtVerdict (nd [.type .object]) (.obj (.cons [122] (.num 4) .nil)) = some false
+    ∧ jsValid (nd [.type .object]) (.obj (.cons [122] (.num 4) .nil)) = true := by decide
+
+/-- strict mode does not see an unsupported keyword inside a sibling the dispatch ignores. -/
+theorem witness_strict_unreached :
+    (match fromJS (fun n => n == st "propertyNames") true
+      (nd [.allOf (.cons (nd [.type .string]) .nil), .items (nd [.other (st "propertyNames")])]) with
+     | .ok _ => true
+     | .error _ => false) = true := by decide
+
+theorem c11_full_false : ¬ c11_full := by
+  intro h
+  obtain ⟨s, hs, he⟩ := h noRej (nd [.type .integer]) (.num 4)
+  have hv := witness_integer_rejects_numbers
+  simp only [verdict, hs] at hv
+  have h1 := hv.1
+  have h2 := hv.2
+  simp_all
 
 end Gozod.C11
